@@ -56,6 +56,13 @@ def derive_seed(base: int, prop: str, index: int) -> int:
     return random.Random(f"{base}:{prop}:{index}").getrandbits(48)
 
 
+def make_case(chk, base, index, tier):
+    seed = derive_seed(base, chk.prop, index)
+    if hasattr(chk, "gen_case_indexed"):
+        return seed, chk.gen_case_indexed(index, seed, tier)
+    return seed, chk.gen_case(seed, tier)
+
+
 # ------------------------------------------------------------------------------------------
 # known findings
 # ------------------------------------------------------------------------------------------
@@ -100,7 +107,7 @@ def _run_chunk(args):
         for i in range(lo, hi):
             seed = derive_seed(base, chk.prop, i)
             try:
-                case = chk.gen_case(seed, tier)
+                seed, case = make_case(chk, base, i, tier)
                 res = chk.run_case(case)
             except Exception:
                 out["errors"].append({"index": i, "seed": seed, "tb": traceback.format_exc()[-3000:]})
@@ -142,8 +149,8 @@ def _rerun_digests(args):
     try:
         res = []
         for i in indices:
-            seed = derive_seed(base, chk.prop, i)
-            r = chk.run_case(chk.gen_case(seed, tier))
+            seed, case = make_case(chk, base, i, tier)
+            r = chk.run_case(case)
             res.append((i, r["digest"]))
         return res
     finally:
@@ -258,8 +265,7 @@ def main(check_factory, argv=None):
     if args.wall:
         wall_cap = args.wall
     if args.one is not None:
-        seed = derive_seed(base, chk.prop, args.one)
-        case = chk.gen_case(seed, tier)
+        seed, case = make_case(chk, base, args.one, tier)
         res = chk.run_case(case)
         print(json.dumps(case, indent=None)[:4000])
         print(json.dumps({k: v for k, v in res.items() if k != "history"}, indent=1, default=str)[:6000])
